@@ -70,6 +70,10 @@ def base_problem(alg: str, q: dict):
     else:
         ranks = R
         start = [r2.rand(s, R) + 0.1 for s in shape]
+        if q.get("zero_row"):
+            # an inadmissible zero in the guess (an all-zero row at an index whose data slice is not empty): the
+            # algorithm has to revive it, and it has to do so in the same way for every holder of the data
+            start[0][0, :] = 0.0
     return Xd, start, ranks
 
 
@@ -119,7 +123,13 @@ def run(alg: str, q: dict, p: dict):
                 from pyttb.gcp.handles import Objectives
                 from pyttb.gcp.optimizers import LBFGSB
                 init = ttb.ktensor([a.copy() for a in st], np.ones(ranks)) if p["start"] == "given" else "random"
-                M, _, info = ttb.gcp_opt(X, ranks, Objectives.GAUSSIAN, LBFGSB(maxiter=q["maxiters"], iprint=-1), init=init, printitn=prn)
+                opt = LBFGSB(maxiter=q["maxiters"], iprint=-1)
+                if p["seed"] >= 1:
+                    # the option object has a history: it has already solved another problem (of another size);
+                    # the same options are the same options whatever the object was used for before
+                    Z = ttb.tensor(np.arange(1.0, 61.0).reshape((5, 4, 3)) % 7)
+                    ttb.gcp_opt(Z, 2, Objectives.GAUSSIAN, opt, init=ttb.ktensor([np.ones((5, 2)), np.ones((4, 2)) * 0.5, np.eye(3, 2) + 0.25], np.ones(2)), printitn=0)
+                M, _, info = ttb.gcp_opt(X, ranks, Objectives.GAUSSIAN, opt, init=init, printitn=prn)
                 full, fit, iters = np_full_k(M.weights, M.factor_matrices), info["final_f"], info["nit"]
     finally:
         logging.disable(logging.NOTSET)
@@ -221,8 +231,20 @@ def main(tier: str) -> int:
                                 continue
                             q = {"shape": shape, "rank": 2, "dseed": sd + 3 * si + rep + mi, "maxiters": mi,
                                  "maxinner": [1, 3, 10][(mi + rep) % 3], "empty_slice": bool((mi + si) % 2 == 0 and alg.startswith("cp_apr")),
+                                 "zero_row": bool((mi + si + rep) % 3 != 0 and alg.startswith("cp_apr")),
                                  "tol": [0.3, 0.05, 0.6][mi % 3], "sequential": bool((mi + rep) % 2)}
                             behaviours.append({"alg": alg, "q": q, "start": start, "pres": pres})
+    # long L-BFGS-B runs (stopped by a convergence test, not by the iteration limit): a fresh option object against one
+    # that has already solved another problem; nothing else differs, so the two runs are the same computation
+    gcp_alg = sorted({r["alg"] for rs in byN.values() for r in rs if "gcp" in r["alg"]})
+    for alg in gcp_alg:
+        for si, shape in enumerate([[3, 4, 2], [4, 3], [2, 3, 2, 2]]):
+            base = {"holder": "dense", "printitn": 0, "seed": 0, "scale": [1, 1], "perm": list(range(len(shape))), "start": "given",
+                    "dtype": "float"}
+            for mi in ((40, 200) if big else (120,)):
+                q = {"shape": shape, "rank": 2, "dseed": sd + 5 * si + mi, "maxiters": mi, "maxinner": 3, "empty_slice": False,
+                     "zero_row": False, "tol": 0.3, "sequential": True}
+                behaviours.append({"alg": alg, "q": q, "start": "given", "pres": [base, dict(base, seed=1), dict(base, seed=1, printitn=1)]})
     out.notes["problems"] = len(behaviours)
     out.notes["presentations_per_problem"] = {f"{N}": len(v) for N, v in byN.items()}
     core.pipeline(out, "c18", behaviours, "Presentation_Trace", lock_mode="superset", chunk=20, site_of=site_of, tags_of=tags_of)
